@@ -74,6 +74,10 @@ func VerifC13Patch() {
 	t := vC13Target()
 	p, err := t.Patch(d)
 	vAssert(err != nil || p != nil, "Patch returned neither a document nor an error")
+	if err == nil {
+		// the result must be a usable document (the CLI prints it): no nil nodes inside
+		vObserve("~result", p.Json())
+	}
 	_ = d.Render()
 	if vParam("RENDER", 0) == 1 {
 		s1, e1 := d.RenderPatch()
